@@ -39,7 +39,7 @@ def pairs(rng):
     n = rng.choice([1, 2, 3, 5, 8, 13])
     x = gen.series(rng, n, pmiss=rng.choice([0, 0.15]))
     t = gen.irregular(rng, n, steps=(1, 60, 61, 3600)) if rng.random() < 0.5 else gen.regular(n, rng.choice([1, 60]))
-    X, Tm = gen.arr(x), gen.times(t)
+    X, Tm = gen.carried(rng, x, poisons=(0.0, -3.0, 50.0, 2.5), p_list=0.0), gen.times(t)
     # gross range
     lo, hi = sorted((gen.dyadic(rng), gen.dyadic(rng)))
     fl = [lo - 1, hi + 1]
